@@ -6,7 +6,10 @@ from ast import ClassDef, FunctionDef, Module
 from collections import OrderedDict
 from os import path
 
-from meta.asttools import cmp_ast
+try:
+    from meta.asttools import cmp_ast
+except KeyError:  # `meta` fails to import its decompiler on newer CPython; `meta.asttools` itself is importable
+    from meta.asttools import cmp_ast
 
 from doctrans import emit, parse
 from doctrans.ast_utils import RewriteAtQuery, find_in_ast, get_function_type
